@@ -2,7 +2,10 @@ package main
 
 import (
 	"fmt"
+	"go/constant"
 	"go/types"
+	"path/filepath"
+	"sort"
 	"strings"
 
 	"golang.org/x/tools/go/ssa"
@@ -175,4 +178,86 @@ func checkHubArgs(prog *ssa.Program, fnName string, ev map[string]interface{}) (
 		return fmt.Sprintf("%s: the session variable is assigned %d times", fnName, stores), ""
 	}
 	return "", ""
+}
+
+// checkWidenedProducts: in the given package, a 32-bit (or narrower) integer product or shift whose
+// result is converted to a 64-bit integer wraps before it is widened - the classic way an offset
+// index*chunkSize goes wrong beyond 4 GiB. For every such site the solver is asked whether operand
+// values exist for which the narrow result differs from the wide one (always the case unless an operand
+// is a constant that rules it out); each satisfiable site is reported with its witness.
+func checkWidenedProducts(prog *ssa.Program, pkgSuffix string, ev map[string]interface{}) []string {
+	var out []string
+	sites, asked := 0, 0
+	for fn := range ssautilAll(prog) {
+		if fn.Pkg == nil || !strings.HasSuffix(fn.Pkg.Pkg.Path(), pkgSuffix) || fn.Blocks == nil {
+			continue
+		}
+		if pos := prog.Fset.Position(fn.Pos()); strings.Contains(pos.Filename, "zz_verif") || strings.HasSuffix(pos.Filename, "_test.go") {
+			continue
+		}
+		for _, b := range fn.Blocks {
+			for _, ins := range b.Instrs {
+				cv, ok := ins.(*ssa.Convert)
+				if !ok {
+					continue
+				}
+				tw, _, tok := isInt(cv.Type())
+				bo, isBin := cv.X.(*ssa.BinOp)
+				if !tok || tw != 64 || !isBin {
+					continue
+				}
+				sw, _, sok := isInt(bo.X.Type())
+				if !sok || sw >= 64 {
+					continue
+				}
+				op := bo.Op.String()
+				if op != "*" && op != "<<" {
+					continue
+				}
+				sites++
+				// operands: constants keep their value, everything else is free
+				decl := ""
+				term := func(v ssa.Value, name string) string {
+					if c, ok := v.(*ssa.Const); ok && c.Value != nil {
+						if u, ok2 := constUint64(c); ok2 {
+							return fmt.Sprintf("(_ bv%d %d)", u&((1<<uint(sw))-1), sw)
+						}
+					}
+					decl += fmt.Sprintf("(declare-const %s (_ BitVec %d))\n", name, sw)
+					return name
+				}
+				x, y := term(bo.X, "x"), term(bo.Y, "y")
+				smtop := "bvmul"
+				if op == "<<" {
+					smtop = "bvshl"
+				}
+				ext := 64 - sw
+				q := fmt.Sprintf("(set-logic ALL)\n%s(assert (not (= ((_ zero_extend %d) (%s %s %s)) (%s ((_ zero_extend %d) %s) ((_ zero_extend %d) %s)))))\n(check-sat)\n", decl, ext, smtop, x, y, smtop, ext, x, ext, y)
+				asked++
+				if res := runOneShot("z3-new", q, 10000); res != "unsat" {
+					pos := prog.Fset.Position(cv.Pos())
+					if !pos.IsValid() {
+						pos = prog.Fset.Position(bo.Pos())
+					}
+					out = append(out, fmt.Sprintf("%s: %s (%d-bit %s) is widened to 64 bits after it may have wrapped (%s:%d) [solver: %s]", fn.String(), bo.String(), sw, op, filepath.Base(pos.Filename), pos.Line, res))
+				}
+			}
+		}
+	}
+	ev["cfg:widened narrow products"] = map[string]interface{}{"sites": sites, "queries": asked, "reported": len(out)}
+	sort.Strings(out)
+	return out
+}
+
+func constUint64(c *ssa.Const) (uint64, bool) {
+	if c.Value == nil {
+		return 0, false
+	}
+	if v, ok := constant.Uint64Val(constant.ToInt(c.Value)); ok {
+		return v, true
+	}
+	if v, ok := constant.Int64Val(constant.ToInt(c.Value)); ok {
+		return uint64(v), true
+	}
+	return 0, false
 }
